@@ -310,6 +310,18 @@ class Model:
         """After add_hydrogens/repair every atom of the (patched) topology is present."""
         self.populate(res, heavy_only=False)
 
+    def set_donors_acceptors(self, res):
+        """Residue.set_donors_acceptors interpreted on the model (both optimisation initialisers call it)."""
+        cls = res["__class__"]
+        m = self.prog.find_method(cls, "set_donors_acceptors")
+        if m is None:
+            raise AnalysisError("set_donors_acceptors not found for " + cls.name)
+        for n, a in res["map"].items():
+            a["is_hydrogen"] = n.startswith("H")
+        res["atoms"] = list(res["map"].values())
+        res["reference"] = {"name": res["__ref__"].name, "__refobj__": True}
+        self.run_method(m, res)
+
     def cleanup(self, res):
         fi = self.prog.func("hydrogens/__init__.py", "HydrogenRoutines.cleanup")
         loop = next((st for st in fi.node.body if isinstance(st, ast.For)), None)
@@ -401,16 +413,27 @@ def terminus_formal(res, atoms):
     return q
 
 
+# protonation variants a structure file may name itself (residue name = variant, no patch recorded): variant -> (residue, canonical state)
+INPUT_VARIANTS = {
+    "AR0": ("ARG", "AR0"), "ASH": ("ASP", "ASH"), "CYM": ("CYS", "CYM"), "CYX": ("CYS", "CYX"), "GLH": ("GLU", "GLH"),
+    "LYN": ("LYS", "LYN"), "TYM": ("TYR", "TYM"), "HID": ("HIS", "HID"), "HIE": ("HIS", "HIE"), "HIP": ("HIS", "HIP"),
+    "HSD": ("HIS", "HID"), "HSE": ("HIS", "HIE"), "HSP": ("HIS", "HIP"),
+}
+
+
 def amino_cells(model: Model, residues=None):
     from .tables import AMINO
     out = []
     for R in residues or AMINO:
         states = [("default", None)] + [(s, s) for s in TITRATION_STATES.get(R, [])]
+        states += [(f"in:{v}", None) for v, (r_, _) in INPUT_VARIANTS.items() if r_ == R and v in model.t.map]
         for slabel, spatch in states:
             for pos, (shape, nn, nc) in POSITIONS.items():
-                his_variants = HIS_FLAGS.items() if (R == "HIS" and spatch is None) else [(None, None)]
+                his_variants = HIS_FLAGS.items() if (R == "HIS" and spatch is None and not slabel.startswith("in:")) else [(None, None)]
                 for hlabel, hflags in his_variants:
-                    res = model.residue(R)
+                    res = model.residue(slabel[3:]) if slabel.startswith("in:") else model.residue(R)
+                    if slabel == "in:CYX":
+                        res["ss_bonded"] = True  # a residue named CYX is half of a bridge
                     chain = [model.residue("ALA") if c == "X" else res for c in shape]
                     model.assign_termini(chain, neutraln=nn, neutralc=nc)
                     model.peptide_patch(res)
@@ -423,6 +446,8 @@ def amino_cells(model: Model, residues=None):
                         for an, (d, a) in (("ND1", hflags[0:2]), ("NE2", hflags[2:4])):
                             res["map"][an]["hdonor"] = d
                             res["map"][an]["hacceptor"] = a
+                    elif R == "HIS" and slabel.startswith("in:"):
+                        model.set_donors_acceptors(res)  # no optimisation choice is modelled for a tautomer the input names
                     elif R == "HIS":
                         for an in ("ND1", "NE2"):
                             res["map"][an]["hdonor"] = 0
